@@ -5,6 +5,7 @@ import BM.Proofs.PassInv
 import BM.Proofs.Prov
 import BM.Proofs.UrlScheme
 import BM.Proofs.UrlRelative
+import BM.Proofs.ProvC
 /-
   C03: URL attributes carry only allowed schemes (or allowed relative URLs).
 
@@ -169,13 +170,13 @@ theorem C03_sanitizeAttrs (p : Policy) (hreq : p.requireParseableURLs = true) (e
 
 /-- **C03 (byte level, plain policies with URL checking)**: every href / cite / src at a checked
     position on a tag re-read from the returned bytes carries a value `validURL` returned. -/
-theorem C03_bytes (p : Policy) (hp : Plain p.ensureInit) (hreq : p.ensureInit.requireParseableURLs = true)
+theorem C03_bytes (p : Policy) (hp : PlainC p.ensureInit) (hreq : p.ensureInit.requireParseableURLs = true)
     (input : Bytes) :
     ∀ k ∈ tokenize (p.sanitizeCore input), (k.tt = .start ∨ k.tt = .selfClosing) →
       ∀ b ∈ k.attrs, UrlChecked p.ensureInit k.data b := by
   intro k hk htt b hb
   have hne : k.attrs ≠ [] := by intro h; rw [h] at hb; simp at hb
-  obtain ⟨t, _, aps, _, _, hs⟩ := reread_open_tag p hp input k hk htt hne
+  obtain ⟨t, _, aps, _, _, hs⟩ := reread_open_tagC p hp input k hk htt hne
   exact C03_sanitizeAttrs p.ensureInit hreq k.data t.attrs aps k.attrs hs b hb
 
 /-- **C03, what a browser makes of an accepted URL** (scheme half of the bridge): a value
@@ -230,7 +231,7 @@ theorem C03_browser (p : Policy) (hreq : p.requireParseableURLs = true) (raw v :
     rewriter): every href / cite / src at a checked position on a tag re-read from the returned
     bytes is `BrowserOK` — no javascript:, data:, vbscript: … URL unless the policy accepts that
     scheme, and no relative URL unless relative URLs are allowed. -/
-theorem C03_bytes_browser (p : Policy) (hp : Plain p.ensureInit) (hreq : p.ensureInit.requireParseableURLs = true)
+theorem C03_bytes_browser (p : Policy) (hp : PlainC p.ensureInit) (hreq : p.ensureInit.requireParseableURLs = true)
     (hnr : p.ensureInit.srcRewriter = none) (input : Bytes) :
     ∀ k ∈ tokenize (p.sanitizeCore input), (k.tt = .start ∨ k.tt = .selfClosing) →
       ∀ b ∈ k.attrs, Spec.isUrlPosition k.data b.key = true → BrowserOK p.ensureInit b.val := by
